@@ -20,19 +20,19 @@ import (
 // helpers play no part.
 
 type cmapOutcome struct {
-	err      string   // "" or the PostScript error name
-	other    bool     // returned some other error
-	ret      bool     // returned nil
-	stack    string   // operand stack afterwards
-	scratch  []string // scratch entries afterwards, rendered field by field
-	scratchN int      // length of the scratch buffer afterwards (-1: nil)
+	err      string            // "" or the PostScript error name
+	other    bool              // returned some other error
+	ret      bool              // returned nil
+	stack    string            // operand stack afterwards
+	scratch  []string          // scratch entries afterwards, rendered field by field
+	scratchN int               // length of the scratch buffer afterwards (-1: nil)
 	tables   map[string]string // CMapInfo field → what was stored ("append(table,scratch)" …)
 	tabElems map[string]int    // CMapInfo field → number of elements afterwards
 	why      string
 	effects  []ssaEffect
 	tableIDs map[string]string // CMapInfo field → id of the list it held at entry
-	cmNil    bool // the mappings pointer was set to nil
-	newCM    bool // a fresh CMapInfo was stored
+	cmNil    bool              // the mappings pointer was set to nil
+	newCM    bool              // a fresh CMapInfo was stored
 	dictPut  []string
 }
 
